@@ -152,6 +152,18 @@ def handlerUpdate (c : Cache) (old : Option Pod) (new : Pod) : Cache :=
   | some r => (c.addPod r new.pid new.q).getD c
   | none => c
 
+/-- pod_eventhandler.go OnAdd → updatePod(nil, pod) for a pod that is annotated (PreBind wrote the
+reservation-allocated annotation first) but still UNBOUND (spec.nodeName = ""): terminated ⇒ deletePod;
+else `!assignedPod(newPod)` with `oldPod = nil` ⇒ return, nothing is recorded. -/
+def handlerAddUnbound (c : Cache) (p : Pod) : Cache :=
+  if p.term then handlerDelete c p else c
+
+/-- pod_eventhandler.go OnUpdate → updatePod(old, new) where `old` = the unbound version of `new` (same
+annotations, spec.nodeName = "") and `new` is bound: `assignedPod(newPod)` holds, both annotations are read
+(GetReservationAllocated does not look at spec.nodeName), so it is cache.updatePod(uid, uid, old, new) —
+the same as an update whose old object already was bound. -/
+def handlerBind (c : Cache) (p : Pod) : Cache := handlerUpdate c (some p) p
+
 /-! ### driver -/
 
 structure RObj where
@@ -249,6 +261,14 @@ def stepLine (st : St) (line : String) : St :=
   | ["rsv", "ev", "upd", pid] =>
     match (nat? pid).bind (findPod st) with
     | some p => { st with fresh := handlerUpdate st.fresh (some p) p }
+    | none => st.bad
+  | ["rsv", "ev", "addu", pid] =>   -- add event carrying the unbound (annotated) version of the stored pod
+    match (nat? pid).bind (findPod st) with
+    | some p => { st with fresh := handlerAddUnbound st.fresh p }
+    | none => st.bad
+  | ["rsv", "ev", "bind", pid] =>   -- update(old = unbound version, new = the stored pod), same annotations
+    match (nat? pid).bind (findPod st) with
+    | some p => { st with fresh := handlerBind st.fresh p }
     | none => st.bad
   | ["rsv", "end"] => { st with out := st.out ++ summary st.fresh }
   | _ => st.bad
